@@ -7,6 +7,7 @@ import (
 	"sync"
 
 	"google.golang.org/grpc"
+	"google.golang.org/grpc/codes"
 	"google.golang.org/grpc/metadata"
 	"google.golang.org/grpc/status"
 	"google.golang.org/protobuf/proto"
@@ -25,7 +26,10 @@ type ClientServerStream struct {
 
 	serverSend chan any
 	clientSend chan any
-	trailer    metadata.MD
+	// singleResponse is set for calls of methods without server streaming (set before the stream is used).
+	// Like gRPC, the client is given the single response only together with an OK status.
+	singleResponse bool
+	trailer        metadata.MD
 	closed     context.CancelFunc
 	closeErr   error
 }
@@ -139,7 +143,42 @@ func (c *clientStream) RecvMsg(m any) error {
 		if !ok {
 			return c.closeErrLocked()
 		}
+		if c.singleResponse {
+			// like gRPC, the response of a method without server streaming is delivered with the final status:
+			// if the handler goes on to return an error, the call fails with that error instead
+			if err := c.awaitStatus(); err != nil {
+				return err
+			}
+		}
 		return permissiveProtoMerge(m.(proto.Message), val.(proto.Message))
+	}
+}
+
+// awaitStatus waits for the handler to return after it has sent its single response.
+// It returns nil if the handler returned nil, else the error the call ends with.
+func (c *clientStream) awaitStatus() error {
+	closeErr := func() error {
+		if err := c.closeErrLocked(); err != io.EOF {
+			return err
+		}
+		return nil
+	}
+	select {
+	case <-c.ctx.Done():
+		// as in RecvMsg: the context is also done once Close has run
+		select {
+		case _, ok := <-c.serverSend:
+			if !ok {
+				return closeErr()
+			}
+		default:
+		}
+		return c.ctx.Err()
+	case _, ok := <-c.serverSend:
+		if !ok {
+			return closeErr()
+		}
+		return status.Error(codes.Internal, "cardinality violation: expected one response, got more")
 	}
 }
 
